@@ -298,7 +298,10 @@ impl Workload {
                 gen_op(r, fam, &mut g)
             }
         };
-        Step::Op { h, op, refs: used }
+        // the operation itself is authoritative for what it references (a getter-style argument
+        // turns a take/move reference into a read)
+        let refs = if used.is_empty() { used } else { op_refs(&op) };
+        Step::Op { h, op, refs }
     }
 
     fn gen_obs(&mut self, r: &mut Rng, sim: &Sim, h: HandleId) -> Step {
